@@ -514,6 +514,63 @@ func respOptAppend(h *ssa.Function, msg ssa.Value, at ssa.Instruction) (decision
 		}
 		decision, store = dec, st
 	})
+	if nStores > 0 || why != "" {
+		return
+	}
+	// helper form: `finishReply(msg, qCtx.RespOpt())` — the helper appends its OPT parameter to its message parameter's
+	// Extra exactly under `opt != nil`, and writes no other section
+	for _, hs := range helperFieldStores(h, msg) {
+		if hs.key != "github.com/miekg/dns.Msg.Extra" && hs.key != "github.com/miekg/dns.Msg.Answer" && hs.key != "github.com/miekg/dns.Msg.Ns" {
+			continue
+		}
+		if !instrDominates(hs.call, at) && hs.call.Block() != at.Block() {
+			continue
+		}
+		nStores++
+		if hs.key != "github.com/miekg/dns.Msg.Extra" {
+			why = "the handler rewrites " + hs.key
+			return
+		}
+		var optPrm *ssa.Parameter
+		extra := ""
+		for _, g := range guardsOfInstr(hs.st) {
+			cm, ok := g.asCmp()
+			if ok && isNilConst(cm.Y) && cm.Op == token.NEQ {
+				if prm, isP := cm.X.(*ssa.Parameter); isP {
+					optPrm = prm
+					continue
+				}
+			}
+			if g.Derived {
+				continue
+			}
+			extra = guardText(g)
+		}
+		if optPrm == nil {
+			why = "Extra is written without a RespOpt() != nil decision"
+			return
+		}
+		if extra != "" {
+			why = "the OPT append also depends on " + extra
+			return
+		}
+		dec, isCall := hs.actual(optPrm).(*ssa.Call)
+		if !isCall || !strings.HasSuffix(callName(dec), ".Context).RespOpt") {
+			why = "the value the helper appends is not the response OPT"
+			return
+		}
+		appended := false
+		for _, r := range referrers(optPrm) {
+			if _, ok := r.(*ssa.MakeInterface); ok {
+				appended = true
+			}
+		}
+		if !appended {
+			why = "the value appended to Extra is not the response OPT"
+			return
+		}
+		decision, store = dec, hs.st
+	}
 	return
 }
 
@@ -556,6 +613,19 @@ func checkFallbackReply(c *Ctx, h *ssa.Function, q ssa.Value, s *packSite, what 
 			}
 		}
 	})
+	for _, hs := range helperFieldStores(h, al) {
+		if !instrDominates(hs.call, s.call) || !hs.unconditional() {
+			continue
+		}
+		switch hs.key {
+		case "github.com/miekg/dns.MsgHdr.Rcode":
+			rcode, _ = constInt(hs.st.Val)
+		case "github.com/miekg/dns.MsgHdr.RecursionAvailable":
+			if b, ok := constBool(hs.st.Val); ok && b {
+				ra = true
+			}
+		}
+	}
 	dec, st, nSt, why := respOptAppend(h, al, s.call)
 	switch {
 	case !setReply:
